@@ -836,6 +836,17 @@ func (env *Env) call(e *SExpr) TV {
 		}
 		env.assumeSide(Term{fmt.Sprintf("(forall ((%s Int)) (= (select %s %s) %s))", bv.S, arr.S, bv.S, body.S), SBool})
 		return TV{Sc{arr}, nil}
+	case "caller":
+		// caller(x): parameter x of the function under verification, seen from a callee's (interface) contract — used to
+		// state rely conditions of callbacks about the object that invokes them
+		if len(e.Args) != 1 || e.Args[0].Kind != "ident" {
+			sfail("caller(paramName) expected")
+		}
+		tv, ok := env.ex.params[e.Args[0].Op]
+		if !ok {
+			sfail("caller(%s): the calling function has no such parameter", e.Args[0].Op)
+		}
+		return tv
 	case "mkiface":
 		// mkiface(typ, val): the interface value with that (type id, value) pair — inverse of typeid()/ifaceval()
 		return TV{If{env.evalInt(e.Args[0]), env.evalInt(e.Args[1])}, nil}
